@@ -495,7 +495,7 @@ class Executor:
             return BuiltinMethod(v, name)
         if isinstance(v, Ghost):
             raise OutOfReach(f"attribute {name} of ghost {v}")
-        if isinstance(v, GenValue) or type(v).__name__ in ("JoinList", "StructObj"):
+        if isinstance(v, GenValue) or type(v).__name__ in ("JoinList", "StructObj", "RevSlice"):
             if type(v).__name__ == "StructObj" and name == "size":
                 return v.size
             return BuiltinMethod(v, name)
@@ -836,7 +836,9 @@ class Executor:
         return ops.order(self, sym, a, b)
 
     def identical(self, a, b):
-        if isinstance(a, SymEnum) or isinstance(b, SymEnum):
+        from .values import SymOpt
+        if isinstance(a, SymEnum) or isinstance(b, SymEnum) or \
+                isinstance(a, SymOpt) or isinstance(b, SymOpt):
             return ops.values_equal(self, a, b)
         if a is None or b is None:
             if isinstance(a, Sym) or isinstance(b, Sym):
